@@ -48,7 +48,7 @@ var payloads = func() []payload {
 	}
 }()
 
-// thorough tier: bigger payloads replace the two 70000 byte ones additionally
+// thorough tier (and replay): two 1 MiB payloads are appended to the grid
 var bigPayloads = func() []payload {
 	return []payload{
 		{Name: "const1M", Data: bytes.Repeat([]byte{'B'}, 1<<20)},
@@ -76,4 +76,11 @@ func isASCII(s string) bool {
 		}
 	}
 	return true
+}
+
+// extendPayloads appends the thorough tier payloads once.
+func extendPayloads() {
+	if len(payloads) == 7 {
+		payloads = append(payloads, bigPayloads...)
+	}
 }
